@@ -87,8 +87,8 @@ fn main() {
         println!("{}", serde_json::to_string(&r).unwrap());
         return;
     }
-    if matches!(cmd.as_str(), "C01" | "C02" | "C03" | "C05" | "C06" | "C07" | "C08" | "C10" | "C12" | "C15" | "C16") && ctx.replay.is_none() {
-        let limit: u64 = std::env::var("VERIF_STALL_S").ok().and_then(|s| s.parse().ok()).unwrap_or(240);
+    if matches!(cmd.as_str(), "C01" | "C02" | "C03" | "C05" | "C06" | "C07" | "C08" | "C10" | "C11" | "C12" | "C15" | "C16") && ctx.replay.is_none() {
+        let limit: u64 = std::env::var("VERIF_STALL_S").ok().and_then(|s| s.parse().ok()).unwrap_or(180);
         report::start_stall_watchdog(&cmd, ctx.out.clone(), limit);
     }
     let shard: Shard = match cmd.as_str() {
